@@ -171,7 +171,7 @@ def handleMicro (toks : List String) : List String :=
     let bs ← rep nb (do
       let cnt ← nI
       let ivs ← rep ncols (do let lo ← nF; let hi ← nF; return (⟨lo, hi⟩ : Ival Float))
-      return ({ ivs, count := cnt } : BCell Float))
+      return ({ ivs, count := cnt, owner := ([], []) } : BCell Float))
     return (convs, nulls, bs)
   let (convs, nulls, bs) := p.run' { toks := main.toArray }
   match (generateMicrodata realEnv convs nulls bs).run stream with
